@@ -27,7 +27,7 @@ import (
 func TestMain(m *testing.M) { vt.Main(m) }
 
 type Step struct {
-	Kind   string `json:"kind"` // note detached finish after duppair resupd sreq
+	Kind   string `json:"kind"` // note detached finish after duppair resupd sreq sreqcancel
 	S      int    `json:"s"`
 	R      int    `json:"r"`
 	T      int    `json:"t,omitempty"` // resupd: the session whose subscribed resource is reported as updated
@@ -63,7 +63,7 @@ func genScript(rt *rapid.T, race bool) Script {
 	}
 	n := rapid.IntRange(1, 40).Draw(rt, "n")
 	for i := 0; i < n; i++ {
-		st := Step{Kind: rapid.SampledFrom([]string{"note", "note", "note", "detached", "finish", "after", "duppair", "resupd", "sreq", "sreq"}).Draw(rt, "kind")}
+		st := Step{Kind: rapid.SampledFrom([]string{"note", "note", "note", "detached", "finish", "after", "duppair", "resupd", "sreq", "sreq", "sreqcancel"}).Draw(rt, "kind")}
 		st.S = rapid.IntRange(0, s.Sessions-1).Draw(rt, "s")
 		st.R = rapid.IntRange(0, s.Calls[st.S]-1).Draw(rt, "r")
 		if st.Kind == "resupd" {
@@ -147,18 +147,36 @@ func runInBubble(s Script) (res vt.Result) {
 		}
 		// sreq: a server->client request (elicitation/create) carrying the tag; it is issued from its own
 		// goroutine because nobody may answer it before the session ends.
+		var pendingCancels []context.CancelFunc // nested requests of this handler that nobody answered yet
+		strictIssued := 0                       // ordinal of the next "sreq"-kind request of this handler
 		sreq := func(c context.Context, kind string) {
 			mu.Lock()
 			seq[a.Tag]++
 			n := seq[a.Tag]
 			mu.Unlock()
-			go req.Session.Elicit(c, &mcp.ElicitParams{Message: fmt.Sprintf("%s|%s|%d", a.Tag, kind, n), RequestedSchema: &jsonschema.Schema{Type: "object"}})
+			c, cancel := context.WithCancel(c)
+			ord := -1
+			if kind == "sreq" {
+				ord = strictIssued
+				strictIssued++
+				pendingCancels = append(pendingCancels, cancel)
+			} else {
+				defer func() { _ = cancel }()
+			}
+			go req.Session.Elicit(c, &mcp.ElicitParams{Message: fmt.Sprintf("%s|%s|%d|%d", a.Tag, kind, n, ord), RequestedSchema: &jsonschema.Schema{Type: "object"}})
 		}
 		ch := chanOf(a.Tag)
 		for c := range ch {
 			switch c.kind {
 			case "note":
 				note(ctx, "inreq")
+			case "sreqcancel":
+				// the handler gives up on its oldest unanswered nested request: the SDK sends
+				// notifications/cancelled for it, "issued while handling" this request
+				if len(pendingCancels) > 0 {
+					pendingCancels[0]()
+					pendingCancels = pendingCancels[1:]
+				}
 			case "sreq":
 				if c.loose {
 					sreq(ctx, "sreqloose")
@@ -319,6 +337,8 @@ func runInBubble(s Script) (res vt.Result) {
 		tag, kind string
 		isResp    bool
 		respID    string
+		reqID     string // sreq: the JSON-RPC id of the server's request; cancelnote: the id it cancels
+		ord       int    // sreq: ordinal among the handler's cancellable nested requests (-1: none)
 	}
 	// messagesOf extracts the JSON-RPC messages an exchange body carries so far.
 	messagesOf := func(ex *memhttp.Exchange) []found {
@@ -328,8 +348,9 @@ func runInBubble(s Script) (res vt.Result) {
 				ID     json.RawMessage `json:"id"`
 				Method string          `json:"method"`
 				Params struct {
-					Message string `json:"message"`
-					URI     string `json:"uri"`
+					Message   string          `json:"message"`
+					URI       string          `json:"uri"`
+					RequestID json.RawMessage `json:"requestId"`
 				} `json:"params"`
 				Result *struct {
 					Content []struct{ Text string } `json:"content"`
@@ -347,13 +368,21 @@ func runInBubble(s Script) (res vt.Result) {
 				out = append(out, f)
 				return
 			}
+			if m.Method == "notifications/cancelled" {
+				out = append(out, found{kind: "cancelnote", reqID: string(m.Params.RequestID)})
+				return
+			}
 			if m.Method == "notifications/resources/updated" {
 				out = append(out, found{tag: strings.TrimPrefix(m.Params.URI, "file:///"), kind: "resupd"})
 				return
 			}
 			parts := strings.Split(m.Params.Message, "|")
-			if len(parts) == 3 {
-				out = append(out, found{tag: parts[0], kind: parts[1]})
+			if len(parts) >= 3 {
+				f := found{tag: parts[0], kind: parts[1], reqID: string(m.ID), ord: -1}
+				if len(parts) == 4 {
+					fmt.Sscan(parts[3], &f.ord)
+				}
+				out = append(out, f)
 			}
 		}
 		ct := ex.RespHeader().Get("Content-Type")
@@ -370,11 +399,46 @@ func runInBubble(s Script) (res vt.Result) {
 		return out
 	}
 
-	sreqOnRequest, sreqOnStandalone := false, false
+	sreqOnRequest, sreqOnStandalone, cancelOnRequest := false, false, false
+	// Mirror of each handler's bookkeeping: how many cancellable nested requests it was told to issue, how
+	// many it was told to cancel, and which of those cancellations (by ordinal) were followed by quiescence
+	// while the handler was still running.
+	strictIssued, cancelSent := map[string]int{}, map[string]int{}
+	strictCancel := map[string]map[int]bool{}
 	check := func(step int) {
+		// the nested requests seen so far, per session and JSON-RPC id (ids of server requests are per session)
+		nested := map[int]map[string]found{}
+		note := func(sess int, fs []found) {
+			for _, f := range fs {
+				if strings.HasPrefix(f.kind, "sreq") && f.reqID != "" {
+					if nested[sess] == nil {
+						nested[sess] = map[string]found{}
+					}
+					nested[sess][f.reqID] = f
+				}
+			}
+		}
+		for _, c := range calls {
+			note(c.s, messagesOf(c.ex))
+		}
+		for i, ex := range standalone {
+			if ex != nil {
+				note(i, messagesOf(ex))
+			}
+		}
 		for _, c := range calls {
 			resp := 0
 			for _, f := range messagesOf(c.ex) {
+				if f.kind == "cancelnote" {
+					if n, ok := nested[c.s][f.reqID]; ok && n.tag != c.tag {
+						res.Failf("step %d: the exchange of %s carries the cancellation of nested request %s, which was issued by the handler of %s", step, c.tag, f.reqID, n.tag)
+					}
+					if s.JSON {
+						res.Failf("step %d: JSON-response exchange of %s carries a non-response message", step, c.tag)
+					}
+					cancelOnRequest = true
+					continue
+				}
 				if f.isResp {
 					resp++
 					if f.respID != fmt.Sprint(c.r) {
@@ -416,6 +480,14 @@ func runInBubble(s Script) (res vt.Result) {
 			for _, f := range messagesOf(ex) {
 				if f.isResp {
 					res.Failf("step %d: the standalone stream of session %d carries a response (id %s)", step, i, f.respID)
+					continue
+				}
+				if f.kind == "cancelnote" {
+					// Cancellation of a nested request that was both issued and given up while its handler was
+					// demonstrably still running (strictCancel): it was "issued while handling a request".
+					if n, ok := nested[i][f.reqID]; ok && n.kind == "sreq" && strictCancel[n.tag][n.ord] && !s.JSON {
+						res.Failf("step %d: the cancellation of nested request %s, issued while handling request %s (SSE mode), travelled on the standalone stream instead of the request's stream", step, f.reqID, n.tag)
+					}
 					continue
 				}
 				if f.kind == "resupd" {
@@ -504,6 +576,20 @@ func runInBubble(s Script) (res vt.Result) {
 		}
 		if kind == "sreq" {
 			sreqN++
+			if !c.finished && !st.NoWait {
+				strictIssued[c.tag]++
+			}
+		}
+		if kind == "sreqcancel" {
+			if c.finished || cancelSent[c.tag] >= strictIssued[c.tag] {
+				continue // nothing to cancel: not sent
+			}
+			if strictCancel[c.tag] == nil {
+				strictCancel[c.tag] = map[int]bool{}
+			}
+			// strict only if this very step ends in quiescence with the handler still running
+			strictCancel[c.tag][cancelSent[c.tag]] = !st.NoWait
+			cancelSent[c.tag]++
 		}
 		select {
 		case chanOf(c.tag) <- cmd{kind: kind, t: st.T, loose: st.NoWait}:
@@ -563,6 +649,9 @@ func runInBubble(s Script) (res vt.Result) {
 	}
 	if sreqOnStandalone {
 		res.Class("server_request_seen_on_standalone_stream")
+	}
+	if cancelOnRequest {
+		res.Class("nested_cancellation_seen_on_request_stream")
 	}
 	return res
 }
